@@ -334,6 +334,24 @@ def run_c18(rep, tier):
             ('a ^ b', ['a', 'b'], SyntaxError), ('f(a)', ['a'], SyntaxError), ('a < b', ['a', 'b'], SyntaxError), ('a & 2', ['a'], SyntaxError), ('-a', ['a'], SyntaxError),
             ('+a', ['a'], SyntaxError), ('a if b else a', ['a', 'b'], SyntaxError), ('a & 0.5', ['a'], SyntaxError), ('lambda a: a - a', None, SyntaxError), ('[a]', ['a'], SyntaxError),
             ('a and 3', ['a'], SyntaxError), ('"a"', ['a'], SyntaxError)]
+    # error propagation: every expression of depth <=2 over Boolean leaves, a variable missing from the ordering (zz) and a
+    # non-Boolean number (2): a strict parser must raise RuntimeError / SyntaxError whenever such a leaf occurs ANYWHERE
+    lv0 = ['a', 'b', '0', '1', 'zz', '2']
+    lv1 = ['~(%s)' % x for x in lv0] + ['(not (%s))' % x for x in lv0] + ['((%s) %s (%s))' % (x, op, y) for op in ('&', '|', 'and', 'or') for x in lv0 for y in lv0]
+    lv2 = ['~(%s)' % x for x in lv1] + ['((%s) %s (%s))' % (x, op, y) for op in ('&', '|', 'and', 'or') for x in lv1[::(3 if tier == 'quick' else 1)] for y in lv0] + \
+          ['((%s) %s (%s))' % (y, op, x) for op in ('&', '|', 'and', 'or') for x in lv1[1::(3 if tier == 'quick' else 1)] for y in lv0] + \
+          ['((%s) and (%s) and (%s))' % (x, y, z) for x in lv0 for y in lv0 for z in lv0] + ['((%s) or (%s) or (%s))' % (x, y, z) for x in lv0 for y in lv0 for z in lv0]
+    for e in lv1 + lv2:
+        nexp += 1
+        has_zz, has_2 = 'zz' in e, '(2)' in e
+        allowed = ([RuntimeError] if has_zz else []) + ([SyntaxError] if has_2 else [])
+        try:
+            OBDD(e, ['a', 'b', 'c'])
+            if allowed:
+                probs.append(('no exception although the expression uses %s' % ('a variable outside the ordering' if has_zz else 'a non-Boolean number'), e, ['a', 'b', 'c']))
+        except Exception as ex:
+            if type(ex) not in allowed:
+                probs.append(('raised %s, expected %s' % (type(ex).__name__, [x.__name__ for x in allowed] or 'no exception'), e, ['a', 'b', 'c']))
     for e, order, exc in errs:
         nexp += 1
         try:
